@@ -213,6 +213,25 @@ theorem interleaving_atomic (c : Cfg V E) (init : Pid → Entry V E) (progs : Ti
         exact hmid.2 k hk
     · exact clean (hcl p hpp)
 
+/-- The sequential run the logs are compared with is made of exactly the threads' calls: the global history of
+completed calls (`ghist`, in the order the update lock was released) is an interleaving of the threads' programs —
+its projection onto thread `t` is the beginning of the calls `t`'s program makes, in program order (all of them once
+`t` has finished), and its projection onto parameter `p` is `hist p`. -/
+theorem hist_is_interleaving (c : Cfg V E) (init : Pid → Entry V E) (progs : Tid → List (Op V E)) (clock : Int)
+    (s : Sys V E) (hr : Reach c (Sys.init init progs clock) s) :
+    (∀ t, ∃ rest, annR c.o (progs t) = doneBy t s.ghist ++ rest) ∧
+    (∀ t, finished s t = true → doneBy t s.ghist = annR c.o (progs t)) ∧
+    (∀ p, s.hist p = onParam p s.ghist) := by
+  have h := shuf_reach hr
+  refine ⟨fun t => ⟨_, (h.thread t).symm⟩, fun t hf => ?_, h.proj⟩
+  have ht := h.thread t
+  unfold finished at hf
+  split at hf
+  · rename_i hpc hprog
+    rw [hpc, hprog] at ht
+    simpa [inflight, annR] using ht
+  · cases hf
+
 /-- When no call is in flight, cache and logs of every parameter are exactly those of the sequential run of
 the completed calls. -/
 theorem quiescent_is_sequential (c : Cfg V E) (init : Pid → Entry V E) (progs : Tid → List (Op V E)) (clock : Int)
@@ -318,6 +337,8 @@ def exSched : List Tid := List.replicate 14 0 ++ List.replicate 11 1 ++ [0]
 example : (runSched exCfg exS0 exSched).map (fun s => ((s.logs 1 0).map (·.msg.ve), (s.logs 2 0).map (·.msg.ve),
     (s.entries 0).ve, s.lock)) = some ([.val 6, .err 1], [.val 6, .err 1], .err 1, none) := by decide
 example : (runSched exCfg exS0 [0, 0, 1]).isNone = true := by decide
+example : (runSched exCfg exS0 exSched).map (fun s => (doneBy 0 s.ghist, doneBy 1 s.ghist, s.ghist.map (·.tid))) =
+    some ([(0, .val 6)], [(0, .err 1)], [0, 1]) := by decide
 
 /-- the hypotheses of the concurrent theorems are satisfiable by a state with a non-trivial log -/
 example : ∃ s, Reach exCfg exS0 s ∧ s.lock = none ∧ (s.logs 1 0).map (·.msg.ve) = [.val 6, .err 1] := by
